@@ -1,0 +1,30 @@
+//go:build verif
+
+// verif_hooks_codec.go: accessors for the external verification harness (/verif), codec group (C13).
+// Compiled only with -tags verif; adds no behaviour to the package: every function below forwards to the
+// unexported codec of the same name. DecodeRPCCall, EncodeRPCReply, ParseAuthSysCredential,
+// RecordMarkingReader/Writer and NewRecordMarkingWriterWithSize are exported already.
+package absnfs
+
+import "io"
+
+// VerifXdrEncodeUint32 forwards to xdrEncodeUint32.
+func VerifXdrEncodeUint32(w io.Writer, v uint32) error { return xdrEncodeUint32(w, v) }
+
+// VerifXdrEncodeUint64 forwards to xdrEncodeUint64.
+func VerifXdrEncodeUint64(w io.Writer, v uint64) error { return xdrEncodeUint64(w, v) }
+
+// VerifXdrDecodeUint32 forwards to xdrDecodeUint32.
+func VerifXdrDecodeUint32(r io.Reader) (uint32, error) { return xdrDecodeUint32(r) }
+
+// VerifXdrEncodeString forwards to xdrEncodeString.
+func VerifXdrEncodeString(w io.Writer, s string) error { return xdrEncodeString(w, s) }
+
+// VerifXdrDecodeString forwards to xdrDecodeString.
+func VerifXdrDecodeString(r io.Reader) (string, error) { return xdrDecodeString(r) }
+
+// VerifXdrEncodeFileHandle forwards to xdrEncodeFileHandle.
+func VerifXdrEncodeFileHandle(w io.Writer, handle uint64) error { return xdrEncodeFileHandle(w, handle) }
+
+// VerifXdrDecodeFileHandle forwards to xdrDecodeFileHandle.
+func VerifXdrDecodeFileHandle(r io.Reader) (uint64, error) { return xdrDecodeFileHandle(r) }
